@@ -263,6 +263,14 @@ func (s *BaseNodeService) executeOperation(operation *types.Operation) error {
 		return fmt.Errorf("processed operation does not match stored operation: %w", err)
 	}
 
+	// Only a reinitialisation is finished without result messages. The event
+	// field is not among the fields an answer is matched by: on the answer to any
+	// other operation this event would retire the operation without posting its
+	// messages and write the answer's extra data into the round.
+	if operation.Event == types.OperationProcessed && storedOperation.Type != types.OperationType(types.ReinitDKG) {
+		return fmt.Errorf("event %s does not answer an operation of type %s", operation.Event, storedOperation.Type)
+	}
+
 	// there are no result messages for OperationProcessed event type
 	if operation.Event != types.OperationProcessed {
 		for i, message := range operation.ResultMsgs {
